@@ -32,6 +32,13 @@ Two families beyond plain values:
     the caller — direct call (nullary and variadic overload), slot, signal emission (theorem
     exception_catch_partial_propagates).  The harness installs a terminate handler that prints a marker and exits with
     code 24: "the exception did not reach the caller" is then reported as what it is.
+  * bound values of class type and reference-typed bound arguments — `av::Json` (a number or an array, with a constructor
+    `Json(std::initializer_list<Json>)` that accepts a Json itself, like std::vector<std::any> or a JSON value class) bound
+    by value with bind / bind<I> / bind_return: the target must receive / the adaptor must return the bound number (an
+    adaptor that list-initialises its stored copy wraps it into a one-element array with g++, which prints differently);
+    bound types spelled explicitly as references, `bind<I, decltype(f), T&, ...>(f, x, ...)` and
+    `bind<decltype(f), const T&, ...>(f, x, ...)`: a target taking `const T&...` must receive the pool objects x
+    themselves (theorem bind_reference_identity; same value model as std::ref-bound results).
 """
 import json
 import os
@@ -50,7 +57,8 @@ REQUIRED = ["Sigc.C10.tupleStart_eq_take", "Sigc.C10.tupleEnd_eq_drop", "Sigc.C1
             "Sigc.C10.routes_agree", "Sigc.C10.resultMode_forwarding", "Sigc.C10.result_identity",
             "Sigc.C10.decay_witness", "Sigc.C10.bound_result_identity", "Sigc.C10.nullary_decay_witness",
             "Sigc.C10.compose_passes_result", "Sigc.C10.getter_decay_witness",
-            "Sigc.C10.exception_catch_partial_propagates", "Sigc.C10.retype_converts_then_binds"]
+            "Sigc.C10.exception_catch_partial_propagates", "Sigc.C10.retype_converts_then_binds",
+            "Sigc.C10.bind_reference_identity"]
 TRUSTED = [
     "Lean 4.33.0 kernel (thorough: leanchecker); axioms per theorem as audited by #print axioms",
     "the hand-written model lean/Sigc/Adapt.lean (tupleStart/tupleCdr/tupleEnd/transformEach, argsImpl, callImpl, "
@@ -76,6 +84,9 @@ ASSUMPTIONS = [
     "retype() is exercised over pointer_functor and slot (not over mem_functor); targets are free functions and "
     "functor classes with a non-template operator(); declared `const T&` / `T&&` / `T` parameters (QL targets) over "
     "int/long/double and av::Str (converted from arithmetic arguments only, never back)",
+    "av::Json occurs only as a bound value of bind / bind_return and is received by parameters declared Json / "
+    "const Json& (or by value in a variadic target); it is never converted; reference-typed bound arguments refer to pool "
+    "objects of type int/long/double that outlive the adaptor",
     "exceptions are of two unrelated class types; catchers are total (never rethrow) or partial (rethrow, handle K1 "
     "and/or K2) and do not throw exceptions of their own; a partial catcher is only used as the catcher argument of "
     "exception_catch",
@@ -207,6 +218,11 @@ def family_cases(ctx, g):
     for _ in range(reps):
         for i, (shape, w) in enumerate(CATCH_SHAPES):
             out.append(("catch", g.catch_case(rng.below(3) if i % 4 else 0, "DSGD"[i % 4], shape, 1 + (i + rng.below(2)) % 2, w)))
+    # --- bound values that are not plain numbers: av::Json (a class with a self-wrapping initializer_list constructor) bound
+    # by value to bind / bind_return; bound arguments whose types are spelled as references (bind<I, F, T&>, bind<F, const T&>)
+    for _ in range(reps):
+        for i, (shape, w) in enumerate(BOUND_SHAPES):
+            out.append(("bound-" + shape, g.bound_case(rng.below(3), "DSG"[i % 3], shape, w)))
     cases = []
     for fam, c in out:
         c["origin"] = "gen:" + fam
@@ -214,6 +230,9 @@ def family_cases(ctx, g):
     return cases
 
 
+BOUND_SHAPES = [("json", None), ("json", None), ("json", None), ("json", "TO"), ("json", "H"), ("json", "SL"),
+                ("json-ret", None), ("json-ret", "SL"), ("json-ret", "H"), ("json-ret", None),
+                ("ref", None), ("ref", None), ("ref", None), ("ref", "TO"), ("ref", "H"), ("ref", "SL"), ("ref", "ECT")]
 RETYPE_WRAPS = [None, None, None, "TO", "SL", "ECT", "H", "B", "HR", "RR", "SL", None]
 CATCH_SHAPES = [("unhandled", None), ("unhandled", None), ("unhandled", None), ("handled", None), ("nested-total", None),
                 ("nested-partial", None), ("nested-none", None), ("total", None), ("unhandled", "TO"), ("unhandled", "H"),
@@ -369,8 +388,8 @@ def shrink_candidates(c):
     args = list(c["args"])
     if k == "B":
         loc = len(args) if e[1] == -1 else e[1]
-        out.append(with_(e[3], args[:loc] + list(e[2]) + args[loc:], ps[:loc] + ["-"] * len(e[2]) + ps[loc:],
-                         sg[:loc] + [b[0] for b in e[2]] + sg[loc:]))
+        out.append(with_(e[3], args[:loc] + [ag.decay(b) for b in e[2]] + args[loc:], ps[:loc] + ["-"] * len(e[2]) + ps[loc:],
+                         sg[:loc] + [ag.decay(b)[0] for b in e[2]] + sg[loc:]))
     elif k == "H":
         idx = len(args) - 1 if e[1] == -1 else e[1]
         out.append(with_(e[2], [a for j, a in enumerate(args) if j != idx], [a for j, a in enumerate(ps) if j != idx],
@@ -450,7 +469,9 @@ def correspondence(ctx):
             "mstr_rvalue_into_compose2": 0, "mstr_pass": {},
             "retype_reference_parameter_cases": 0, "retype_converting_temporaries": {"const T&": 0, "T&&": 0, "Str": 0},
             "thrown_types": {"K1": 0, "K2": 0}, "partial_catcher_cases": 0, "exception_reached_caller": 0,
-            "partial_catcher_passed_exception_on": 0}
+            "partial_catcher_passed_exception_on": 0,
+            "json_bound_value_cases": 0, "json_returned_by_bind_return": 0, "reference_typed_bound_argument_cases": 0,
+            "bound_object_received_by_target": 0}
     pairs = set()
     distinct = set()
     for c, r in zip(cases, results):
@@ -474,6 +495,14 @@ def correspondence(ctx):
         for k_, code in (("K1", "1"), ("K2", "2")):
             dist["thrown_types"][k_] += sum(1 for j, t in enumerate(toks[:-2]) if t in ("L", "V", "PL", "QL", "RL")
                                             and toks[j + 2] == code)
+        if any(t.startswith("j:") for t in toks):
+            dist["json_bound_value_cases"] += 1
+            if "res=j:" in (r["impl"] or ""):
+                dist["json_returned_by_bind_return"] += 1
+        if ag.c10_has_ref_bound(c["expr"]):
+            dist["reference_typed_bound_argument_cases"] += 1
+            if "cref:" in (r["impl"] or "").split(" res=")[0]:
+                dist["bound_object_received_by_target"] += 1
         if "PC" in toks:
             dist["partial_catcher_cases"] += 1
             if (r["impl"] or "").endswith(("res=threw", "res=threw2")):
